@@ -20,6 +20,14 @@ def _record_field(name):
     return res
 
 
+def _position(v, n):
+    """
+    Position *v* (negative positions count from the end)
+    among *n* known names, a name may stand for several columns.
+    """
+    return min(v, n - 1) if v >= 0 else max(v, -n)
+
+
 def _pipeline_info(pipe, data, context, former_data=None):
     """
     Internal function to convert a pipeline into
@@ -67,10 +75,10 @@ def _pipeline_info(pipe, data, context, former_data=None):
                 # a previous step may stand for several columns with one name
                 if isinstance(data, OrderedDict):
                     cols = list(data.items())
-                    new_data = OrderedDict(cols[min(v, len(cols) - 1)] for v in vs)
+                    new_data = OrderedDict(cols[_position(v, len(cols))] for v in vs)
                 else:
                     cols = list(data)
-                    new_data = [cols[min(v, len(cols) - 1)] for v in vs]
+                    new_data = [cols[_position(v, len(cols))] for v in vs]
             else:
                 new_data = OrderedDict()
                 for v in vs:
